@@ -100,6 +100,7 @@ def _run_one(args):
                 return mu['id'], 'bad-mutant', f'mutant does not compile: {e}'
         os.environ['SA_EVIDENCE_DIR'] = os.path.join(tmp, 'evidence')
         os.environ['SA_NO_SELFTEST'] = '1'
+        os.environ['SA_JOBS'] = '2'        # many checks run side by side here: keep their inner pools small
         buf = io.StringIO()
         with contextlib.redirect_stdout(buf):
             rc = run_property(mu['property'], 'quick', tmp, 0)
